@@ -1,12 +1,12 @@
 package checks
 
 import (
-	"sort"
 	"fmt"
 	"math/rand"
 	"os"
 	"os/exec"
 	"path/filepath"
+	"sort"
 	"strings"
 	"syscall"
 
